@@ -1,0 +1,12 @@
+//go:build !verif
+// +build !verif
+
+package vm
+
+// Verification hooks are compiled out unless the "verif" build tag is set.
+
+type verifSlot struct{}
+
+func verifBegin(vm *VM, program *Program, env interface{}) {}
+
+func verifStep(vm *VM, op byte) {}
